@@ -43,6 +43,16 @@ Theorem C19_periodic_time : forall nw vals s times,
   recent (sn_cap s) (times ++ [nw]) (sn_time (fst (periodic_sense nw vals s))).
 Proof. exact periodic_sense_time. Qed.
 
+(** the callbacks are notified in the state the measurement ends in: the sensor's series, the time series included, all hold the same
+    number of entries when they run (false of the code before fix 92eafab: Findings/C19_refuted.v, D11) *)
+Theorem C19_periodic_aligned_at_notification : forall hists nw vals s times,
+  SnInv hists s -> length vals = length (sn_data s) -> recent (sn_cap s) times (sn_time s) ->
+  (forall i, (i < length hists)%nat -> length (nth i hists []) = length times) ->
+  let s1 := fst (periodic_sense nw vals s) in
+  snd (periodic_sense nw vals s) = sn_sense_calls nw s1 /\
+  forall i, (i < length (sn_data s1))%nat -> length (nth i (sn_data s1) []) = length (sn_time s1).
+Proof. intros. split; [reflexivity|]. eapply periodic_sense_aligned_at_notification; eauto. Qed.
+
 (** the k-th measurement is due exactly k intervals after the start (k-fold addition), and there is
     always exactly one pending measurement event: system invariant preserved by every executed event *)
 Theorem C19_system_step : forall sc ws t0 s s',
@@ -76,6 +86,7 @@ Print Assumptions C19_collect.
 Print Assumptions C19_bounded_aligned.
 Print Assumptions C19_periodic_probes.
 Print Assumptions C19_periodic_time.
+Print Assumptions C19_periodic_aligned_at_notification.
 Print Assumptions C19_system_step.
 Print Assumptions C19_due.
 Print Assumptions C19_part_counting.
